@@ -377,7 +377,10 @@ func (m *Machine) reflectStub(name string, fn *ssa.Function, args []Val) (Val, b
 		if fl&rvFlagAddr == 0 {
 			endPath("PANIC", "reflect: Set on unaddressable value")
 		}
-		_, sv := m.rvLoad(args[1])
+		st, sv := m.rvLoad(args[1])
+		if types.IsInterface(t) && !types.IsInterface(st) {
+			sv = Iface{st, sv} // assignment of a concrete value to an interface-typed destination boxes it
+		}
 		m.Store(p, t, sv)
 		return nil, true
 	case "(reflect.Value).IsNil":
